@@ -32,6 +32,7 @@ type symEvent struct {
 	Mode   string     `json:"mode"`
 	Force  bool       `json:"force"`
 	None   bool       `json:"none"`
+	Remote bool       `json:"remote"` // the mode consults the remote symbol service (which looks at has-functions only)
 	Before vlib.Table `json:"before"`
 	After  vlib.Table `json:"after"`
 	Err    bool       `json:"err"`
@@ -41,12 +42,12 @@ var run *vlib.Run
 
 type ui struct{ errs []string }
 
-func (u *ui) ReadLine(string) (string, error)        { return "", io.EOF }
-func (u *ui) Print(a ...interface{})                 {}
-func (u *ui) PrintErr(a ...interface{})              { u.errs = append(u.errs, fmt.Sprint(a...)) }
-func (u *ui) IsTerminal() bool                       { return false }
-func (u *ui) WantBrowser() bool                      { return false }
-func (u *ui) SetAutoComplete(func(string) string)    {}
+func (u *ui) ReadLine(string) (string, error)     { return "", io.EOF }
+func (u *ui) Print(a ...interface{})              {}
+func (u *ui) PrintErr(a ...interface{})           { u.errs = append(u.errs, fmt.Sprint(a...)) }
+func (u *ui) IsTerminal() bool                    { return false }
+func (u *ui) WantBrowser() bool                   { return false }
+func (u *ui) SetAutoComplete(func(string) string) {}
 
 // scripted object files
 type objTool struct {
@@ -73,7 +74,7 @@ func (t *objTool) Open(file string, start, limit, offset uint64, rel string) (pl
 func (t *objTool) Disasm(string, uint64, uint64, bool) ([]plugin.Inst, error) {
 	return nil, fmt.Errorf("no disasm")
 }
-func (f *objFile) Name() string                    { return "scripted" }
+func (f *objFile) Name() string                     { return "scripted" }
 func (f *objFile) ObjAddr(a uint64) (uint64, error) { return a, nil }
 func (f *objFile) BuildID() string {
 	if f.t.c.Opens[f.idx] == "mismatch" {
@@ -143,6 +144,15 @@ func (t *transport) RoundTrip(req *http.Request) (*http.Response, error) {
 	return &http.Response{StatusCode: 200, Status: "200 OK", Body: io.NopCloser(strings.NewReader(out.String())), Header: http.Header{}}, nil
 }
 
+// same rule as UsesRemote in Symbolize.tla
+func usesRemote(mode string) bool {
+	switch mode {
+	case "local", "fastlocal", "local:force", "local:demangle=templates", "local:bogus", "none":
+		return false
+	}
+	return true
+}
+
 func forceOf(mode string) (force, none bool) {
 	for _, o := range strings.Split(strings.ToLower(mode), ":") {
 		switch o {
@@ -204,7 +214,7 @@ func main() {
 			return
 		}
 		force, none := forceOf(c.Mode)
-		ev := symEvent{Op: "symbolize", N: n, Mode: c.Mode, Force: force, None: none, Before: before, After: vlib.TableOf(p), Err: err != nil}
+		ev := symEvent{Op: "symbolize", N: n, Mode: c.Mode, Force: force, None: none, Remote: usesRemote(c.Mode), Before: before, After: vlib.TableOf(p), Err: err != nil}
 		run.Event(ev)
 		run.Aux(map[string]interface{}{"n": n, "case": json.RawMessage(raw)})
 		n++
